@@ -564,17 +564,3 @@ def compare(deck, t4, points, eps=1e-6):
                            f'volume {owners[0]} attached to {names}')
             failures.append(info)
     return checked, failures, stats
-
-
-def fill_rotation_moves(deck, index):
-    '''Class predicate of finding lattice_fill_rotation: the lattice fill has a
-    rotation B and B t != t for the translation t of element `index`.'''
-    ref = mcnpref.Reference(deck)
-    lat = ref.resolve(LAT_CELL)
-    ftr = ref.tr_of(lat['fill'].get('tr'))
-    if not ftr or ftr.get('B') is None or index is None:
-        return False
-    vecs = [np.array(v, float) for v in lat['lat_vectors']]
-    shift = sum(i * v for i, v in zip(index, vecs))
-    bmat = np.array(ftr['B'], float).reshape(3, 3)
-    return bool(np.abs(bmat @ shift - shift).max() > 1e-9)
